@@ -217,6 +217,49 @@ class StatsSpec(Spec):
         return stats.det_cases(tier)
 
 
+class DataLoggerSpec(Spec):
+    prop = "C17"
+    harness = "datalogger"
+    level = "exploration"
+    batch = 40
+    rule = ("one run = the real DataCollection with 1-3 data sets (raw / json / quicklogger formatters, type selections, "
+            "subdivision off / 30 s / 600 s, WRITE_PERIOD 0.5-15 s) records a seeded sequence (0..200) of update(msg) / "
+            "update(None) / pause / resume / clock moves and then stop (sometimes start-stop again); the recording side "
+            "and the real background writer are baton-scheduled threads, and every Event.wait/set/clear/is_set and "
+            "Thread.start/join/is_alive is a scheduling point where the seeded scheduler picks who runs and may move the "
+            "virtual clock by 0 / a little / just under or over a flush or subdivision period.  After stop every file is "
+            "read back (raw split by the independent codec, json via Message.from_json, quicklogger via QLReader) and "
+            "compared with the accepted sequence.  non-trivial = more than two task switches and at least one message; "
+            "distinct = distinct scheduler log + operation trace")
+    expected_probes = ("checked_raw", "checked_json", "checked_quicklogger", "subdivided_files", "empty_sequence",
+                       "single_message", "lock_contended", "runs_with_flush", "runs_with_3+_flushes", "writer_busy_seen",
+                       "ql_files_read", "second_recording")
+    components = {"real": ["pyrtma.data_logger.data_collection (DataCollection incl. the writer loop)",
+                           "pyrtma.data_logger.data_set", "data_formatter and the raw/json/quicklogger formatters",
+                           "pyrtma.data_logger.metadata", "pyrtma.utils.quicklogger_reader (QLReader)",
+                           "pyrtma.message / core_defs", "real files in a scratch directory"],
+                  "stub": ["threading.Event / Thread / Lock -> baton-scheduled simulator versions",
+                           "time.time -> virtual clock", "print -> discarded"]}
+    assumptions = ["pre-emption only at synchronisation operations (the granularity the property names)",
+                   "no disk faults and no process crashes (the statement does not claim them)"]
+
+    def prepare(self):
+        super().prepare()
+        import logging
+        lg = logging.getLogger("data_logger")
+        if not lg.handlers:
+            lg.addHandler(logging.NullHandler())
+        lg.propagate = False
+
+    def run(self, choices, forced=None):
+        from harness import datalogger
+        return datalogger.run(choices, forced)
+
+    def deterministic_cases(self, tier):
+        from harness import datalogger
+        return datalogger.det_cases(tier)
+
+
 _SPECS = {}
 
 
@@ -237,6 +280,7 @@ def _register():
     _SPECS["C06"] = IdentitySpec()
     _SPECS["C08"] = ReadPathSpec()
     _SPECS["C18"] = StatsSpec()
+    _SPECS["C17"] = DataLoggerSpec()
 
 
 def get_spec(prop: str) -> Spec:
